@@ -779,60 +779,62 @@ func TestRangeMatrix(t *testing.T) {
 		t.Skip("sequential, in-process: nothing for the race detector")
 	}
 	staticAllocatesFromHeader(getTree(t))
-	propRangeMatrix.Enumerate(t, func(yield func(RangeCase) bool) {
-		for _, n := range []int{0, 1, 2, 3, 10} {
-			pos := []string{"0", "1"}
-			seen := map[string]bool{"0": true, "1": true}
-			for _, d := range []int{-2, -1, 0, 1} {
-				if s := fmt.Sprint(n + d); n+d >= 0 && !seen[s] {
-					seen[s] = true
-					pos = append(pos, s)
+	propRangeMatrix.Enumerate(t, enumRangeMatrix)
+}
+
+func enumRangeMatrix(yield func(RangeCase) bool) {
+	for _, n := range []int{0, 1, 2, 3, 10} {
+		pos := []string{"0", "1"}
+		seen := map[string]bool{"0": true, "1": true}
+		for _, d := range []int{-2, -1, 0, 1} {
+			if s := fmt.Sprint(n + d); n+d >= 0 && !seen[s] {
+				seen[s] = true
+				pos = append(pos, s)
+			}
+		}
+		pos = append(pos, "2147483648", "1125899906842624", "9223372036854775807", "9223372036854775808", "18446744073709551616")
+		var singles, reduced []string
+		for i, a := range pos {
+			singles = append(singles, a+"-", "-"+a)
+			for j, b := range pos {
+				singles = append(singles, a+"-"+b)
+				if i < 6 && j < 6 && i <= j {
+					reduced = append(reduced, a+"-"+b)
 				}
 			}
-			pos = append(pos, "2147483648", "1125899906842624", "9223372036854775807", "9223372036854775808", "18446744073709551616")
-			var singles, reduced []string
-			for i, a := range pos {
-				singles = append(singles, a+"-", "-"+a)
-				for j, b := range pos {
-					singles = append(singles, a+"-"+b)
-					if i < 6 && j < 6 && i <= j {
-						reduced = append(reduced, a+"-"+b)
-					}
-				}
+		}
+		reduced = append(reduced, "0-", "1-", fmt.Sprint(n)+"-", "-1", "-0", fmt.Sprintf("-%d", n+1), "0-9223372036854775807", "1125899906842624-1125899906842625", "x")
+		var headers []string
+		headers = append(headers, syntaxVariants...)
+		for _, s := range singles {
+			headers = append(headers, "bytes="+s)
+		}
+		for _, a := range reduced {
+			for _, b := range reduced {
+				headers = append(headers, "bytes="+a+","+b)
 			}
-			reduced = append(reduced, "0-", "1-", fmt.Sprint(n)+"-", "-1", "-0", fmt.Sprintf("-%d", n+1), "0-9223372036854775807", "1125899906842624-1125899906842625", "x")
-			var headers []string
-			headers = append(headers, syntaxVariants...)
-			for _, s := range singles {
-				headers = append(headers, "bytes="+s)
-			}
-			for _, a := range reduced {
-				for _, b := range reduced {
-					headers = append(headers, "bytes="+a+","+b)
-				}
-			}
-			plainOnly := map[string]bool{} // headers run against the two constructor-built modifiers only
-			if n == 10 {
-				// every placement of list white space: ordered pairs and triples of the
-				// three spec kinds, each comma with SP / HTAB / two blanks on either side
-				kinds := []string{"0-1", "5-", "-3"}
-				for _, a := range kinds {
-					for _, b := range kinds {
-						for _, l := range []string{"", " ", "\t", "  "} {
-							for _, r := range []string{"", " ", "\t", "  "} {
-								headers = append(headers, "bytes="+a+l+","+r+b)
-							}
+		}
+		plainOnly := map[string]bool{} // headers run against the two constructor-built modifiers only
+		if n == 10 {
+			// every placement of list white space: ordered pairs and triples of the
+			// three spec kinds, each comma with SP / HTAB / two blanks on either side
+			kinds := []string{"0-1", "5-", "-3"}
+			for _, a := range kinds {
+				for _, b := range kinds {
+					for _, l := range []string{"", " ", "\t", "  "} {
+						for _, r := range []string{"", " ", "\t", "  "} {
+							headers = append(headers, "bytes="+a+l+","+r+b)
 						}
-						for _, c3 := range kinds {
-							for _, l1 := range []string{"", " ", "\t"} {
-								for _, r1 := range []string{"", " ", "\t"} {
-									for _, l2 := range []string{"", " ", "\t"} {
-										for _, r2 := range []string{"", " ", "\t"} {
-											if l1+r1+l2+r2 != "" {
-												h := "bytes=" + a + l1 + "," + r1 + b + l2 + "," + r2 + c3
-												headers = append(headers, h)
-												plainOnly[h] = true
-											}
+					}
+					for _, c3 := range kinds {
+						for _, l1 := range []string{"", " ", "\t"} {
+							for _, r1 := range []string{"", " ", "\t"} {
+								for _, l2 := range []string{"", " ", "\t"} {
+									for _, r2 := range []string{"", " ", "\t"} {
+										if l1+r1+l2+r2 != "" {
+											h := "bytes=" + a + l1 + "," + r1 + b + l2 + "," + r2 + c3
+											headers = append(headers, h)
+											plainOnly[h] = true
 										}
 									}
 								}
@@ -841,51 +843,51 @@ func TestRangeMatrix(t *testing.T) {
 					}
 				}
 			}
-			if n == 10 {
-				// the unit in every letter case
-				for m := 1; m < 32; m++ {
-					u := []byte("bytes")
-					for i := range u {
-						if m&(1<<i) != 0 {
-							u[i] -= 'a' - 'A'
-						}
-					}
-					for _, set := range []string{"2-5", "0-1,4-", "-3", "2-5, 7-"} {
-						headers = append(headers, string(u)+"="+set)
+		}
+		if n == 10 {
+			// the unit in every letter case
+			for m := 1; m < 32; m++ {
+				u := []byte("bytes")
+				for i := range u {
+					if m&(1<<i) != 0 {
+						u[i] -= 'a' - 'A'
 					}
 				}
-				// what the modifier is handed and how its boundary was set (body.Modifier)
-				for _, h := range []string{"", "bytes=2-5", "bytes=0-1,4-", "bytes=0-1,-2,5-7", "bytes=20-", "bytes=5-2", "bytes=abc", "bytes=0-99999999999999999999", "items=0-1"} {
-					for _, up := range []string{"", "nop", "206cr", "416cr"} {
-						if up != "" && !yield(RangeCase{Who: "body", Len: n, Seed: 10, Range: h, Upstream: up}) {
-							return
-						}
-						for i := range boundaryChoices {
-							if up == "" || up == "nop" && i%3 == 0 {
-								if !yield(RangeCase{Who: "body", Len: n, Seed: 10, Range: h, Upstream: up, Boundary: &boundaryChoices[i]}) {
-									return
-								}
+				for _, set := range []string{"2-5", "0-1,4-", "-3", "2-5, 7-"} {
+					headers = append(headers, string(u)+"="+set)
+				}
+			}
+			// what the modifier is handed and how its boundary was set (body.Modifier)
+			for _, h := range []string{"", "bytes=2-5", "bytes=0-1,4-", "bytes=0-1,-2,5-7", "bytes=20-", "bytes=5-2", "bytes=abc", "bytes=0-99999999999999999999", "items=0-1"} {
+				for _, up := range []string{"", "nop", "206cr", "416cr"} {
+					if up != "" && !yield(RangeCase{Who: "body", Len: n, Seed: 10, Range: h, Upstream: up}) {
+						return
+					}
+					for i := range boundaryChoices {
+						if up == "" || up == "nop" && i%3 == 0 {
+							if !yield(RangeCase{Who: "body", Len: n, Seed: 10, Range: h, Upstream: up, Boundary: &boundaryChoices[i]}) {
+								return
 							}
 						}
 					}
 				}
 			}
-			for _, h := range headers {
-				for _, c := range []RangeCase{{Who: "body"}, {Who: "static"}, {Who: "body", Slack: 2}, {Who: "body", ViaJSON: true}, {Who: "static", ViaJSON: true}} {
-					if c.ViaJSON && n != 2 && n != 10 {
-						continue // JSON-built modifiers: two of the five lengths
-					}
-					if plainOnly[h] && (c.ViaJSON || c.Slack > 0) {
-						continue
-					}
-					c.Len, c.Seed, c.Range = n, uint64(n), h
-					if !yield(c) {
-						return
-					}
+		}
+		for _, h := range headers {
+			for _, c := range []RangeCase{{Who: "body"}, {Who: "static"}, {Who: "body", Slack: 2}, {Who: "body", ViaJSON: true}, {Who: "static", ViaJSON: true}} {
+				if c.ViaJSON && n != 2 && n != 10 {
+					continue // JSON-built modifiers: two of the five lengths
+				}
+				if plainOnly[h] && (c.ViaJSON || c.Slack > 0) {
+					continue
+				}
+				c.Len, c.Seed, c.Range = n, uint64(n), h
+				if !yield(c) {
+					return
 				}
 			}
 		}
-	})
+	}
 }
 
 // ---------------------------------------------------------------- path cases
@@ -974,7 +976,9 @@ func runPath(c PathCase) kit.Verdict {
 		return nil // not a request the proxy would hand to a modifier
 	}
 	want, shape := designated(ft, req.URL.Path, c.Target, c.Explicit)
-	sig := func(class string) string { return "C20/" + whoLabel("static", c.ViaJSON) + "/path-" + shape + "/" + class }
+	sig := func(class string) string {
+		return "C20/" + whoLabel("static", c.ViaJSON) + "/path-" + shape + "/" + class
+	}
 	res := proxyutil.NewResponse(200, nil, req)
 	var explicit map[string]string
 	if c.Explicit {
